@@ -157,6 +157,8 @@ def build(deco, defk, bodyk, ending="return", fail=0):
     else:
         body = mk("async", bodyk, has_first, end=ending)
     sync_body = mk("sync", "plain", has_first)
+    if defk == "function":
+        sync_body = FalsyCallable(sync_body)        # a callable OBJECT that happens to be falsy is a perfectly good sync_fn
     if deco == "plain":
         f = desc(body)
     elif deco == "asynq":
@@ -274,6 +276,17 @@ def perform(obj, conv, pos, kw, pure):
             return v
         return [caller2(), None]
     raise ValueError(conv)
+
+
+class FalsyCallable(object):
+    def __init__(self, f):
+        self.f = f
+
+    def __call__(self, *a, **kw):
+        return self.f(*a, **kw)
+
+    def __len__(self):
+        return 0
 
 
 class Terminated(Exception):
